@@ -7,6 +7,7 @@ runs: N pictures in one reader vs. one reader per picture, both modes, paddings 
 -/
 import H263V.Model.State
 import H263V.Lemmas.SorensonPicture
+import H263V.Lemmas.StreamAny
 import H263V.Model.System
 namespace H263V.Thm.C15
 open H263V H263V.State H263V.Lemmas.SorensonPicture H263V.Lemmas.PictureRoundTrip
@@ -34,6 +35,28 @@ theorem stream_decodes_picture_by_picture (o : DecOpts) (ho : o.sorenson = true)
     decodeCalls ps.length s ⟨stream ps pos ++ tail, pos⟩ =
       decodeAlone s ps >>= fun s' => .ok (s', ⟨tail, streamEnd ps pos⟩) :=
   calls_eq_alone o ho ps s pos tail hso hr hv
+
+/-- **One call, one picture — every flavour.**  The same for a valid picture of any of the three header flavours (`Pic`: Sorenson
+Spark, baseline H.263 with PTYPE, H.263v2 with PLUSPTYPE in either UFEP form) in a decoder of the matching mode, in any reachable
+decoder state. -/
+theorem one_call_one_picture_any (s : State) (hr : s.running = 0) (p : Lemmas.StreamAny.Pic) (w h : Nat) (hv : p.Valid s w h)
+    (k : Nat) (hk : k ≤ 7) (rest : Bits) (pos : Nat) (hwin : k ≤ realignmentBits ⟨[], pos⟩ + 1) :
+    decodeNextPicture s ⟨zeros k ++ (p.bits s ++ rest), pos⟩ =
+      decodeNextPicture s ⟨p.bits s, 0⟩ >>= fun r => .ok (r.1, ⟨rest, pos + k + (p.bits s).length⟩) := by
+  rw [Lemmas.StreamAny.decode_pic_padded s hr p w h hv k rest pos hk hwin]
+  have e0 := Lemmas.StreamAny.decode_pic s hr p w h hv [] 0
+  rw [List.append_nil] at e0
+  rw [e0]
+  cases semCore s (p.picture s) p.mbs <;> rfl
+
+/-- **Streams — every flavour**, including standard-H.263 streams mixing PTYPE and PLUSPTYPE pictures, where a header may
+inherit modes from the previous picture (UFEP = 000): the stream is written by an encoder that tracks the decoder state, and
+every picture is valid in the state the decoder is in when it reaches it (`StreamValid`). -/
+theorem stream_decodes_picture_by_picture_any (ps : List Lemmas.StreamAny.Pic) (s : State) (pos : Nat) (tail : Bits)
+    (hr : s.running = 0) (hv : Lemmas.StreamAny.StreamValid s ps) :
+    Lemmas.SorensonPicture.decodeCalls ps.length s ⟨Lemmas.StreamAny.stream s ps pos ++ tail, pos⟩ =
+      Lemmas.StreamAny.decodeAlone s ps >>= fun s' => .ok (s', ⟨tail, Lemmas.StreamAny.streamEnd s ps pos⟩) :=
+  Lemmas.StreamAny.calls_eq_alone ps s pos tail hr hv
 
 /-- the carried-over options are empty in every state a fresh decoder can reach (the hypothesis `s.running = 0` above) -/
 theorem running_zero_of_history (o : DecOpts) (c0 : Cur) (ops : List System.Op) :
